@@ -52,7 +52,7 @@ pub enum ScEv {
     HookPassed { before: bool },
     HookFailed { before: bool, tok: Tok, world: Option<u64> },
     StepStarted { bg: bool, text: String },
-    StepPassed { bg: bool, text: String, loc: Option<u32> },
+    StepPassed { bg: bool, text: String, loc: Option<u32>, cap0: Option<(usize, usize)>, ngroups: usize },
     StepSkipped { bg: bool, text: String },
     StepFailed { bg: bool, text: String, err: ErrKind, world: Option<u64>, loc: Option<u32>, captures: bool },
     Log(String),
@@ -105,7 +105,7 @@ fn decode_step(bg: bool, s: &gherkin::Step, e: &Step<W>) -> ScEv {
     let text = s.value.clone();
     match e {
         Step::Started => ScEv::StepStarted { bg, text },
-        Step::Passed(_, loc) => ScEv::StepPassed { bg, text, loc: loc.map(|l| l.line) },
+        Step::Passed(cap, loc) => ScEv::StepPassed { bg, text, loc: loc.map(|l| l.line), cap0: cap.get(0), ngroups: cap.len() },
         Step::Skipped => ScEv::StepSkipped { bg, text },
         Step::Failed(cap, loc, w, err) => ScEv::StepFailed {
             bg,
